@@ -202,7 +202,7 @@ func (c *conn) serve() {
 			buf := make([]byte, 4096)
 			buf = buf[:runtime.Stack(buf, false)]
 			log.Printf("diam: panic serving %v: %v\n%s",
-				c.rwc.RemoteAddr().String(), err, buf)
+				c.rwc.RemoteAddr(), err, buf)
 		}
 		c.rwc.Close()
 		c.connectionGone()
